@@ -278,17 +278,8 @@ class CtlSim:
         addr = self.address()
         if use_main:
             from asyncio_taskpool.control import __main__ as mainmod
-            argv = ["prog", "unix", addr[1]] if addr[0] == "unix" else ["prog", "tcp", addr[1], str(addr[2])]
-            old = sys.argv
-            sys.argv = argv
-            try:
-                coro = mainmod.main()
-                # main() parses sys.argv in its first step, before its first suspension
-                fut = asyncio.ensure_future(self._await(coro))
-                await asyncio.sleep(0)
-            finally:
-                sys.argv = old
-            await fut
+            # sys.argv is set for the whole run (execute()): main() parses it in its first step
+            await mainmod.main()
         else:
             if addr[0] == "unix":
                 cl = cmod.UnixControlClient(socket_path=addr[1])
@@ -494,8 +485,11 @@ class CtlSim:
         cap_out, cap_err = io.StringIO(), io.StringIO()
         saved = (cmod.__dict__.get("input"), cmod.__dict__.get("print"))
         old_sim = ctlworkers.SIM
+        old_argv = sys.argv
         try:
             ctlworkers.SIM = self
+            addr = self.address()
+            sys.argv = ["prog", "unix", addr[1]] if addr[0] == "unix" else ["prog", "tcp", addr[1], str(addr[2])]
             cmod.input = self._cli_input
             cmod.print = self._cli_print
             sys.stdout, sys.stderr = cap_out, cap_err
@@ -522,6 +516,7 @@ class CtlSim:
                 self._teardown()
         finally:
             sys.stdout, sys.stderr = old_out, old_err
+            sys.argv = old_argv
             ctlworkers.SIM = old_sim
             for k, v in zip(("input", "print"), saved):
                 if v is None:
